@@ -75,8 +75,7 @@ func numberFormatRule(p *core.Program, r *core.Report, rule string, entry *ssa.F
 	}
 	fmtc, ok1 := eng.ConstInt(args[off+1])
 	bits, ok2 := eng.ConstInt(args[off+3])
-	_, path, isField := fieldLoad(eng.StripConv(args[off+2]))
-	okArgs := ok1 && fmtc == 'f' && ok2 && bits == 64 && isField && path == "."+digitsField
+	okArgs := ok1 && fmtc == 'f' && ok2 && bits == 64 && isDigitsOperand(p, fn, args[off+2], digitsField)
 	r.Check(okArgs, rule, key+"/format-args", p.Pos(call.Pos()), true, "strconv."+eng.CalleeObj(call).Name()+"(x, 'f', "+digitsField+", 64)",
 		fmt.Sprintf("the number is formatted with (%v, %s, %v) instead of ('f', the encoder's %s, 64): 'f' with -1 is the shortest decimal that round-trips; another verb or bit size loses bits or emits exponents", fmtVerb(fmtc, ok1), args[off+2], bits, digitsField))
 	// the ordinate value flows only into the formatting call
@@ -185,9 +184,8 @@ func numberFormatRule(p *core.Program, r *core.Report, rule string, entry *ssa.F
 		if !ok || id.Succs[0] != d {
 			continue
 		}
-		_, pth, isF := fieldLoad(c.X)
 		z, isZ := eng.ConstInt(c.Y)
-		if c.Op == token.GTR && isF && pth == "."+digitsField && isZ && z == 0 {
+		if c.Op == token.GTR && isDigitsOperand(p, fn, c.X, digitsField) && isZ && z == 0 {
 			guarded = true
 		}
 	}
@@ -198,6 +196,50 @@ func numberFormatRule(p *core.Program, r *core.Report, rule string, entry *ssa.F
 		why = "the trim is not confined to " + digitsField + " > 0: with 0 digits the text has no decimal point and trimming zeros eats integer digits (10 -> 1)"
 	}
 	r.Check(okOrder && guarded, rule, key+"/trim", p.Pos(outer.Pos()), true, "TrimRight(TrimRight(s, \"0\"), \".\") only when "+digitsField+" > 0", why)
+}
+
+// isDigitsOperand: v is the encoder's digit limit - a load of the field named digitsField, or a parameter of fn that
+// every call site in the package feeds with that field (or, in a recursive call, with the same parameter).
+func isDigitsOperand(p *core.Program, fn *ssa.Function, v ssa.Value, digitsField string) bool {
+	v = eng.StripConv(v)
+	if _, pth, ok := fieldLoad(v); ok && pth == "."+digitsField {
+		return true
+	}
+	prm, ok := v.(*ssa.Parameter)
+	if !ok {
+		return false
+	}
+	idx := -1
+	for i, q := range fn.Params {
+		if q == prm {
+			idx = i
+		}
+	}
+	if idx < 0 {
+		return false
+	}
+	n := 0
+	for _, g := range p.SrcFuncs(true) {
+		for _, c := range eng.Calls(g) {
+			if c.Common().StaticCallee() != fn || idx >= len(c.Common().Args) {
+				continue
+			}
+			a := eng.StripConv(c.Common().Args[idx])
+			if g == fn && a == ssa.Value(prm) {
+				continue // the recursion hands the limit on
+			}
+			n++
+			if _, pth, okF := fieldLoad(a); okF && pth == "."+digitsField {
+				continue
+			}
+			// handed on from a caller that received it the same way
+			if ap, isP := a.(*ssa.Parameter); isP && g != fn && ap.Parent() == g && isDigitsOperand(p, g, ap, digitsField) {
+				continue
+			}
+			return false
+		}
+	}
+	return n > 0
 }
 
 func fmtVerb(v int64, ok bool) string {
@@ -599,14 +641,37 @@ func c18(p *core.Program, r *core.Report) {
 	const r2 = "geojson-digits"
 	r.Rule(r2, "GeoJSON: nestedFloat64WithMaxDecimalDigits.marshalJSON formats every float64 leaf with strconv.AppendFloat(buf, x, 'f', c.maxDecimalDigits, 64) and trims zeros-then-point only when d > 0; it recurses into every slice element and emits '[' ',' ']' so nesting and ordinate count are unchanged", 4)
 	const rel = "encoding/geojson"
-	if fn := mustFn(p, r, r2, rel, "(*nestedFloat64WithMaxDecimalDigits).marshalJSON"); fn != nil {
+	// the digit-limiting handler, by role: the function of the package that walks a reflect.Value recursively
+	// (it calls itself with val.Index(i)) - method or function, under whatever name
+	var handler *ssa.Function
+	for _, f := range pkgFuncs(p, rel) {
+		if f.Parent() != nil {
+			continue
+		}
+		for _, c := range eng.Calls(f) {
+			if c.Common().StaticCallee() != f {
+				continue
+			}
+			for _, a := range c.Common().Args {
+				if idx, ok := a.(*ssa.Call); ok && eng.CalleeObj(idx) != nil && eng.CalleeObj(idx).Name() == "Index" && eng.CalleeObj(idx).Pkg() != nil && eng.CalleeObj(idx).Pkg().Path() == "reflect" {
+					handler = f
+				}
+			}
+		}
+	}
+	if handler == nil {
+		handler = mustFn(p, r, r2, rel, "(*nestedFloat64WithMaxDecimalDigits).marshalJSON")
+	}
+	if fn := handler; fn != nil {
 		numberFormatRule(p, r, r2, fn, "AppendFloat", "maxDecimalDigits")
 		// recursion over every element: loop bounded by val.Len(), recursive call on val.Index(i)
 		rec := false
 		for _, c := range eng.Calls(fn) {
 			if c.Common().StaticCallee() == fn {
-				if idx, ok := c.Common().Args[2].(*ssa.Call); ok && eng.CalleeObj(idx) != nil && eng.CalleeObj(idx).Name() == "Index" {
-					rec = true
+				for _, a := range c.Common().Args {
+					if idx, ok := a.(*ssa.Call); ok && eng.CalleeObj(idx) != nil && eng.CalleeObj(idx).Name() == "Index" {
+						rec = true
+					}
 				}
 			}
 		}
